@@ -304,4 +304,30 @@ Proof.
   rewrite (frob2_unitary_right C n n n (qmm n P A) (qherm P)) by (rewrite (qherm_herm C n n P); exact P1).
   apply frob2_unitary_left. exact P1.
 Qed.
+(* the real part of the trace is cyclic (the trace itself is not, over the quaternions) ... *)
+Lemma retr_cyclic m n (A B : qmat) : retr m (qmm n A B) = retr n (qmm m B A).
+Proof.
+  unfold retr, qmm. rewrite (sumR_ext C m _ (fun i => sumR n (fun l => qre (qmul (A i l) (B l i))))) by (intros; apply sumQ_re).
+  rewrite (sumR_ext C n _ (fun l => sumR m (fun i => qre (qmul (B l i) (A i l))))) by (intros; apply sumQ_re).
+  rewrite sumR_swap. apply sumR_ext; intros l _. apply sumR_ext; intros i _. apply qre_mul_comm.
+Qed.
+(* ... hence a unitary similarity keeps the real part of the trace *)
+Theorem similarity_retr n (A P B : qmat) : sim_inv C n A P B -> retr n B = retr n A.
+Proof.
+  intros [[P1 P2] HS]. rewrite <- (retr_meq C n _ _ HS). rewrite retr_cyclic.
+  apply retr_meq. rewrite <- (qmm_assoc C n n n n (qherm P) P A), P1. apply qmm_id_l.
+Qed.
+(* ... and the Gram matrix B^H B is the same unitary similarity of A^H A: the singular values are those of A *)
+Theorem similarity_gram n (A P B : qmat) : sim_inv C n A P B ->
+  meq n n (qmm n (qherm B) B) (qmm n (qmm n P (qmm n (qherm A) A)) (qherm P)).
+Proof.
+  intros [[P1 P2] HS]. rewrite <- HS.
+  rewrite (qherm_mm_meq C n n n (qmm n P A) (qherm P)), (qherm_herm C n n P), (qherm_mm_meq C n n n P A).
+  rewrite (qmm_assoc C n n n n P (qmm n (qherm A) (qherm P)) (qmm n (qmm n P A) (qherm P))).
+  rewrite (qmm_assoc C n n n n (qherm A) (qherm P) (qmm n (qmm n P A) (qherm P))).
+  rewrite <- (qmm_assoc C n n n n (qherm P) (qmm n P A) (qherm P)).
+  rewrite <- (qmm_assoc C n n n n (qherm P) P A), P1, (qmm_id_l C n n A).
+  rewrite <- (qmm_assoc C n n n n (qherm A) A (qherm P)).
+  rewrite <- (qmm_assoc C n n n n P (qmm n (qherm A) A) (qherm P)). reflexivity.
+Qed.
 End Fro.
